@@ -249,7 +249,20 @@ def corpus():
     # reader blocked on its full queue
     from .. import rawdata as _rd
     long_in = b"".join(_rd.mk_rdh(link=3, fee=0x100A, payload_len=0, pktcnt=i & 0xFF, orbit=7, pages=0, stop=0) for i in range(15000))
-    extra = [("long-input-error-cap", long_in, ["check", "all", "-e", "1"]), ("long-input-error-cap", long_in, ["check", "all", "its", "-e", "3"]),
+    # a middle-layer stave one of whose lanes carries a configured chip order followed by one more chip (and one that stops one chip
+    # short), checked with chip orders configured WITHOUT a chip count: an [E9005], not a crash
+    ml = streams.Link(rng, 7, 3, 4, fmt=2, stave_level=True)
+    wsm = [itsgen.ihw(ml.lanes_mask), itsgen.tdh(trigger_type=0xA03, internal=1, no_data=0, continuation=0, bc=9, orbit=ml.orbit)]
+    for n_, idb in enumerate(ml.lane_ids):
+        chips = list(range(8)) if n_ == 0 else (list(range(6)) if n_ == 1 else list(range(7)))
+        wsm += streams.lane_words(idb, b"".join(bytes([0xE0 | c, 0x21]) for c in chips))        # chip empty frames, bunch counter 0x21
+    wsm.append(itsgen.tdt(packet_done=1))
+    plm = itsgen.payload(wsm, ml.fmt)
+    ml_in = ml.rdh(len(plm), 0, 0, 9, 0x6A03) + plm
+    plm = itsgen.payload([itsgen.ddw0()], ml.fmt)
+    ml_in += ml.rdh(len(plm), 1, 1, 9, 0x6A03) + plm
+    extra = [("custom-chip-orders-without-count", ml_in, ["check", "all", "its-stave", "-c", "TOML2"]),
+             ("long-input-error-cap", long_in, ["check", "all", "-e", "1"]), ("long-input-error-cap", long_in, ["check", "all", "its", "-e", "3"]),
              ("long-input-no-subcommand", long_in, []), ("long-input-view", long_in, ["view", "rdh"])]
     return extra + [
         ("F2-empty-input", b"", ["check", "sanity"]),
@@ -343,11 +356,14 @@ def run(tier, seed):
             if mode == ["WRITE"] and not any(x in opts for x in ("-f", "-F", "-s")):
                 opts = ["-f", str(ids[0][0] if ids else rng.randrange(32))]
             jobs.append({"s": s, "kind": kind, "data": data, "path": path, "mode": mode, "opts": opts, "src": rng.choice(["file", "pipe"])})
+    toml2 = os.path.join(tmp, "cc_orders_only.toml")
+    open(toml2, "w").write("chip_orders_ob = [[0, 1, 2, 3, 4, 5, 6], [8, 9, 10, 11, 12, 13, 14]]\n")
     toml = os.path.join(tmp, "cc.toml")
     open(toml, "w").write("cdps = 10\ntriggers_pht = 0\nrdh_version = 7\nchip_count_ob = 7\nchip_orders_ob = [[0, 1, 2, 3, 4, 5, 6], [8, 9, 10, 11, 12, 13, 14]]\n")
 
     def work(j):
-        args = [a if a != "TOML" else toml for a in j["opts"]]
+        args = [a if a != "TOML" else (toml if (j["s"] % 2 == 0) else toml2) for a in j["opts"]]
+        j = dict(j, mode=[a if a != "TOML2" else toml2 for a in j["mode"]])
         if j["mode"] == ["WRITE"]:
             args = args + ["-o", os.path.join(tmp, "out_%d.raw" % id(j))]
         else:
